@@ -1141,7 +1141,7 @@ fn diff_instance(
     // Edges (skeleton plane): map by EdgeId for stable diff independent of insertion order.
     let before_edges = edges_by_id(before);
     let after_edges = edges_by_id(after);
-    diff_edges(ops, warp_id, &before_edges, &after_edges);
+    diff_edges(ops, warp_id, after, &before_edges, &after_edges);
     diff_edge_attachments(
         ops,
         warp_id,
@@ -1224,9 +1224,24 @@ fn diff_node_attachments(
     }
 }
 
+/// Returns `true` when an edge that keeps its id must be replayed as `DeleteEdge` + `UpsertEdge`
+/// rather than as an in-place `UpsertEdge`:
+/// - it moved to another source bucket (`DeleteEdge` addresses the old bucket), or
+/// - its old target node no longer exists afterwards: `DeleteNode` replays before `UpsertEdge`
+///   and rejects nodes that still have incident edges, so the stale edge has to go first.
+fn edge_is_recreated(
+    after: &GraphStore,
+    rec_before: &EdgeRecord,
+    rec_after: &EdgeRecord,
+) -> bool {
+    rec_before.from != rec_after.from
+        || (rec_before.to != rec_after.to && after.node(&rec_before.to).is_none())
+}
+
 fn diff_edges(
     ops: &mut Vec<WarpOp>,
     warp_id: WarpId,
+    after: &GraphStore,
     before_edges: &std::collections::BTreeMap<ContentHash, EdgeRecord>,
     after_edges: &std::collections::BTreeMap<ContentHash, EdgeRecord>,
 ) {
@@ -1252,7 +1267,7 @@ fn diff_edges(
                 if rec_before == rec_after {
                     continue;
                 }
-                if rec_before.from != rec_after.from {
+                if edge_is_recreated(after, rec_before, rec_after) {
                     ops.push(WarpOp::DeleteEdge {
                         warp_id,
                         from: rec_before.from,
@@ -1281,14 +1296,14 @@ fn diff_edge_attachments(
         let edge_id = EdgeId(*id);
         let before_val = before.edge_attachment(&edge_id);
         let after_val = after.edge_attachment(&edge_id);
-        // An edge that keeps its id but moves to another source bucket is replayed as
-        // `DeleteEdge` + `UpsertEdge` (see `diff_edges`), and `DeleteEdge` clears the
-        // attachment slot. Whatever value the edge carries afterwards must therefore be
-        // written again, even when it is unchanged or was already set by an `OpenPortal`.
+        // An edge that keeps its id but is replayed as `DeleteEdge` + `UpsertEdge` (see
+        // `diff_edges`) loses its attachment slot to the `DeleteEdge`. Whatever value the edge
+        // carries afterwards must therefore be written again, even when it is unchanged or
+        // was already set by an `OpenPortal`.
         let recreated_with_value = after_val.is_some()
             && before_edges
                 .get(id)
-                .is_some_and(|rec_before| rec_before.from != rec_after.from);
+                .is_some_and(|rec_before| edge_is_recreated(after, rec_before, rec_after));
         if before_val == after_val && !recreated_with_value {
             continue;
         }
